@@ -127,6 +127,9 @@ func randString(cnt any, letters string) (string, error) {
 	if err != nil {
 		return "", err
 	}
+	if n < 0 {
+		return "", fmt.Errorf("length of a random string must not be negative, got %d", n)
+	}
 	if n == 0 {
 		n = 1
 	}
